@@ -863,9 +863,14 @@ func propTable() map[string]*PropSpec {
 		th := append([]RunConfig{}, sp.Thorough...)
 		for i := range th {
 			th[i].Confirm = true
+			if n, ok := th[i].Params["n"]; ok && id == "C18" && n&(n-1) != 0 {
+				// remainder by a non-power-of-two: only cvc5's integer blasting answers (z3 and plain cvc5 time out, section
+				// 5), so asking for a second opinion only burns the time limit 61 times
+				th[i].Confirm = false
+			}
 		}
 		sp.Thorough = th
-		sp.Bounds = append(sp.Bounds, "thorough tier: each assertion verdict is accepted only if two SMT back ends (of cvc5 int-blasting, z3 5.1, cvc5) give it, when a second one answers within the time limit")
+		sp.Bounds = append(sp.Bounds, "thorough tier: each assertion verdict is accepted only if two SMT back ends (of cvc5 int-blasting, z3 5.1, cvc5) give it, when a second one answers within the time limit (C18: second opinion for committee sizes that are powers of two only; for the other sizes only cvc5 int-blasting decides the remainder kernel)")
 	}
 
 	// weighted committees: the single-node harnesses take their weights from the "weights" parameter; the thorough
